@@ -12,7 +12,9 @@ RULE = ("random histories (length <= 12) of build_force_matrix / solve_stress / 
         "non-trivial = the history re-solves or re-builds some frame; distinct = the operation sequence")
 TRUSTED = ["Model/Session.v (stores as functions of frames, results as symbolic tokens) tied to forsys.py by comparing, after every "
            "operation, the implementation's stores with the values a fresh object produces for the model's token (bitwise equality)",
-           "the harness's token bookkeeping is checked against Model/Session.v inside Coq for every history"]
+           "the harness's token bookkeeping is checked against Model/Session.v inside Coq for every history",
+           "Model/WriteBack.v tied exactly to the tensions of all mesh edges before / after a solve; which element of set(ownEdges(a)) & set(ownEdges(b)) "
+           "comes first is learnt by evaluating the same expression in the same process (CPython set order)"]
 ASSUMPTIONS = ["solvers and circle fits are deterministic functions of their inputs (checked: fresh objects reproduce bitwise)"]
 TESTED_NOT_PROVED = ["the write-back onto the mesh edges is proved for the model (C10_used_edges_carry_their_entry, C10_excluded_edges_are_zero, "
                      "C10_other_edges_unchanged, C10_write_back_forgets_history) and tied exactly to the implementation on ten solves per run; the interface-level "
